@@ -39,6 +39,12 @@ def space(tier):
 
 
 def cases(tier):
+    if tier != 'quick':
+        # the thorough tier is a superset: the quick tensordot lattice first (all rank vectors over {1,2} at orders <= 3),
+        # then the larger alphabets (orders <= 4, ranks <= 3, outer ranks {1,3}, mixed site types over sizes <= 3)
+        for c in cases('quick'):
+            if c['op'] == 'td':
+                yield c
     q = tier == 'quick'
     # ---- tensordot
     orders = [1, 2, 3] if q else [1, 2, 3, 4]
